@@ -54,19 +54,22 @@ structure Cfg where
   zeroDiscards : Bool
   /-- the abandoned-stream rule looks at `StreamSession._drained` (not `_closed`) -/
   ruleDrained : Bool
-  /-- `_PooledTransport` remembers a stream request sent while the previous session was not drained (`_stream_leaked`) -/
+  /-- `_PooledTransport` remembers a request sent while the last session was not drained (`_stream_leaked`) -/
   trackLeak : Bool
+  /-- a borrow left by a non-`Exception` `BaseException` (KeyboardInterrupt …) is discarded (`_interrupted`) -/
+  trackInterrupt : Bool
 deriving Repr
 
 /-- the configuration of the code as extracted -/
 def Cfg.ofGen (maxIdle : Nat) (timeout : Int) : Cfg :=
   { maxIdle, timeout, evictCmp := Gen.Pool.evictCmp, reapCmp := Gen.Pool.reapCmp, olderCmp := Gen.Pool.olderCmp,
-    zeroDiscards := Gen.Pool.zeroDiscards, ruleDrained := Gen.Pool.ruleDrained, trackLeak := Gen.Pool.trackLeak }
+    zeroDiscards := Gen.Pool.zeroDiscards, ruleDrained := Gen.Pool.ruleDrained, trackLeak := Gen.Pool.trackLeak,
+    trackInterrupt := Gen.Pool.trackInterrupt }
 
 /-- the code before the C32 repairs -/
 def Cfg.legacy (maxIdle : Nat) (timeout : Int) : Cfg :=
   { maxIdle, timeout, evictCmp := .ge, reapCmp := .ge, olderCmp := .lt,
-    zeroDiscards := false, ruleDrained := false, trackLeak := false }
+    zeroDiscards := false, ruleDrained := false, trackLeak := false, trackInterrupt := false }
 
 /-! ### the idle dict -/
 
@@ -155,16 +158,17 @@ inductive Sess where
   | none | open | dirty | drained
 deriving Repr, DecidableEq
 
-/-- `_PooledTransport._stream_opened`, `_stream_leaked`, `_session` -/
+/-- `_PooledTransport._stream_opened`, `_stream_leaked`, `_last_stream_session`, `_interrupted` -/
 structure Conn where
   opened : Bool := false
   leaked : Bool := false
   sess : Sess := .none
+  interrupted : Bool := false
 deriving Repr, DecidableEq
 
 /-- `_PooledTransport.close`: `stream_abandoned` -/
 def abandoned (c : Cfg) (x : Conn) : Bool :=
-  x.opened && ((c.trackLeak && x.leaked) ||
+  (c.trackInterrupt && x.interrupted) || x.opened && ((c.trackLeak && x.leaked) ||
     (match x.sess with
      | .none => true
      | .open => true
@@ -173,23 +177,28 @@ def abandoned (c : Cfg) (x : Conn) : Bool :=
 
 /-- a client operation of the borrower, classified by what it did to the session -/
 inductive UseOp where
-  | unary      -- a unary call, whatever its outcome (value, RpcError, on_log raised); not inside an open stream
+  | unary      -- a unary call, whatever its outcome (value, RpcError, on_log raised an `Exception`)
   | openOk     -- a stream call returned a session
   | openFail   -- a stream call raised after sending its request (init error, on_log raised while reading the header)
   | step       -- tick / exchange that left the session open (data, or on_log raised mid-read)
   | endOk      -- the session ended and its output was read to the EOS marker (`_drained`)
   | endDirty   -- the session ended (`_closed`) without reaching the EOS marker
-  | sendFail   -- a stream call failed before its request was sent (dead transport): nothing changed
+  | sendFail   -- a stream call failed before its request was sent (dead transport)
+  | interrupt  -- a `BaseException` that is not an `Exception` escaped from a client operation: the borrow is over
 deriving Repr, DecidableEq
 
+/-- every call fetches `transport.writer` to send its request: with the last session not drained, that is a leak -/
+def leakNow (x : Conn) : Bool := x.leaked || (x.sess == .open || x.sess == .dirty)
+
 def useConn (x : Conn) : UseOp → Option Conn
-  | .unary => if x.sess = .open then none else some x
-  | .openOk => some { opened := true, leaked := x.leaked || (x.sess == .open || x.sess == .dirty), sess := .open }
-  | .openFail => some { x with opened := true, leaked := x.leaked || (x.sess == .open || x.sess == .dirty) }
+  | .unary => some { x with leaked := leakNow x }
+  | .openOk => some { x with opened := true, leaked := leakNow x, sess := .open }
+  | .openFail => some { x with opened := true, leaked := leakNow x }
   | .step => if x.sess = .open then some x else none
   | .endOk => if x.sess = .open then some { x with sess := .drained } else none
   | .endDirty => if x.sess = .open then some { x with sess := .dirty } else none
-  | .sendFail => some x
+  | .sendFail => some { x with leaked := leakNow x }
+  | .interrupt => some { x with interrupted := true }
 
 /-- the connection's cleanliness after the operation -/
 def useSynced (x : Conn) (sy : Bool) : UseOp → Bool
@@ -200,6 +209,7 @@ def useSynced (x : Conn) (sy : Bool) : UseOp → Bool
   | .endOk => !x.leaked
   | .endDirty => false
   | .sendFail => sy
+  | .interrupt => false
 
 /-! ### the concurrent model -/
 
